@@ -191,3 +191,5 @@ def run(ctx):
                        "callsite_probes": len(probes), "expected_rejects": nrej}
     ctx.layers["C"] = {"permitted_integral_cases": len(perm), "values_converted": sum(s["n"] for s in sums), "records_validated_by_TLC": nval}
     ctx.exhaustive = False
+    from .. import walks
+    walks.run(ctx, {"As"}, "implicit conversions inside chains of operations", seed_offset=6)
